@@ -377,6 +377,14 @@ package table
 // no record of that name exists (lemma createUnique), so of racing creations at most one succeeds -
 // and carries (name, id) with the fresh id drawn from the sequence. Only valid catalogue names
 // are ever created.
+// CreateTable: the shard that is started is the one that was just catalogued, under the catalogued name
+//@ func (*Manager).CreateTable
+//@   maypanic
+//@   params m, name
+//@   results t, err
+//@   requires m != nil && m.store != nil && m.nh != nil
+//@   before (*Manager).startTable assert [C14.create.start] name == created.Name && id == created.ClusterID
+//@   modifies m.store.rHas, m.store.rPair, m.store.nwk, m.store.wVal, m.store.wVer, m.store.wDel, m.store.wPrevHas, m.store.wPrev
 //@ func (*Manager).createTable
 //@   params m, name
 //@   results tab, err
@@ -453,7 +461,16 @@ package table
 // getTables: every entry of the listing is keyed by its own name; the map is new. (Which records the
 // pattern "/tables/*" selects is the store's GetAll, not under contract.) The map handed out last is
 // remembered in a ghost field so that callers' contracts can speak about it.
-//@ ghostfield table.Manager.lastTables gomap[string]Table
+//@ ghostfield table.Manager.lastTables gomap[string]table.Table
+// GetTables: the listing as a slice - every element is a record of the catalogue as it was read
+//@ func (*Manager).GetTables
+//@   params m
+//@   results ts, err
+//@   requires m != nil && m.store != nil
+//@   ensures err == nil ==> fresh(m.lastTables)
+//@   ensures [C14.list.slice] err == nil ==> fresh(ts) && forall j int :: 0 <= j && j < len(ts) ==> has(m.lastTables, ts[j].Name) && m.lastTables[ts[j].Name] == ts[j]
+//@   modifies m.lastTables
+//@   loop 0 invariant tabs == m.lastTables && tabs != nil && fresh(rtabs) && forall j int :: 0 <= j && j < len(rtabs) ==> has(tabs, rtabs[j].Name) && tabs[rtabs[j].Name] == rtabs[j]
 //@ func (*Manager).getTables
 //@   params m
 //@   results tables, err
